@@ -282,6 +282,9 @@ func (cp *CollectingProcess) decodeTemplateSet(templateBuffer *bytes.Buffer, obs
 					return nil, err
 				}
 				klog.InfoS("Template includes an information element that is not present in registry", "obsDomainID", obsDomainID, "templateID", templateID, "enterpriseID", enterpriseID, "elementID", elementID)
+				if elementLength == 0 {
+					return nil, fmt.Errorf("unknown information element %d (enterpriseID %d) has zero length", elementID, enterpriseID)
+				}
 				element = entities.NewInfoElement("", elementID, entities.OctetArray, enterpriseID, elementLength)
 			}
 		} else {
@@ -312,6 +315,9 @@ func (cp *CollectingProcess) decodeTemplateSet(templateBuffer *bytes.Buffer, obs
 					return nil, err
 				}
 				klog.InfoS("Template includes an information element that is not present in registry", "obsDomainID", obsDomainID, "templateID", templateID, "enterpriseID", enterpriseID, "elementID", elementID)
+				if elementLength == 0 {
+					return nil, fmt.Errorf("unknown information element %d (enterpriseID %d) has zero length", elementID, enterpriseID)
+				}
 				element = entities.NewInfoElement("", elementID, entities.OctetArray, enterpriseID, elementLength)
 			}
 		}
@@ -363,14 +369,35 @@ func (cp *CollectingProcess) decodeDataSet(dataBuffer *bytes.Buffer, obsDomainID
 		return nil, err
 	}
 
-	for dataBuffer.Len() > 0 {
+	// Minimum length of a data record for this template: variable-length elements
+	// take at least one byte (the length prefix).
+	minRecordLen := 0
+	for _, ie := range template {
+		if ie.Len == entities.VariableLength {
+			minRecordLen += 1
+		} else {
+			minRecordLen += int(ie.Len)
+		}
+	}
+	if minRecordLen == 0 {
+		return nil, fmt.Errorf("template %d with obsDomainID %d does not define any data", templateID, obsDomainID)
+	}
+
+	// Trailing bytes that cannot hold a data record are padding (RFC 7011, Section 3.3.1).
+	for dataBuffer.Len() >= minRecordLen {
 		elements := make([]entities.InfoElementWithValue, 0, len(template)+cp.numExtraElements)
 		for _, ie := range template {
 			var length int
 			if ie.Len == entities.VariableLength { // string / octet array
-				length = getFieldLength(dataBuffer)
+				length, err = getFieldLength(dataBuffer)
+				if err != nil {
+					return nil, err
+				}
 			} else {
 				length = int(ie.Len)
+			}
+			if dataBuffer.Len() < length {
+				return nil, fmt.Errorf("data record is truncated: %d bytes left for an element of length %d", dataBuffer.Len(), length)
 			}
 			element, err := entities.DecodeAndCreateInfoElementWithValue(ie, dataBuffer.Next(length))
 			if err != nil {
@@ -505,12 +532,17 @@ func getMessageLength(reader *bufio.Reader) (int, error) {
 
 // getFieldLength returns string field length for data record
 // (encoding reference: https://tools.ietf.org/html/rfc7011#appendix-A.5)
-func getFieldLength(dataBuffer *bytes.Buffer) int {
-	oneByte, _ := dataBuffer.ReadByte()
+func getFieldLength(dataBuffer *bytes.Buffer) (int, error) {
+	oneByte, err := dataBuffer.ReadByte()
+	if err != nil {
+		return 0, fmt.Errorf("error in decoding variable-length field: %v", err)
+	}
 	if oneByte < 255 { // string length is less than 255
-		return int(oneByte)
+		return int(oneByte), nil
 	}
 	var lengthTwoBytes uint16
-	util.Decode(dataBuffer, binary.BigEndian, &lengthTwoBytes)
-	return int(lengthTwoBytes)
+	if err := util.Decode(dataBuffer, binary.BigEndian, &lengthTwoBytes); err != nil {
+		return 0, err
+	}
+	return int(lengthTwoBytes), nil
 }
